@@ -823,3 +823,12 @@ package s3db
 //@           T(*db.crdt.Mast)[a] == old(T(vacRoot(tableName))[a])))
 // history is deleted only after the purged tree was committed
 //@   at call:kv.DeleteHistoricVersions assert after-commit: err == nil
+
+// parseSchema (C20): the columns grammar (a combinator parser, outside the
+// verified subset: its calls are treated as arbitrary) reports some rejections
+// — a second PRIMARY KEY, UNIQUE — through an error list while still matching;
+// whatever it reported is an error of parseSchema, and so is unparsed input.
+//@ func parseSchema
+//@   modifies nothing
+//@   ensures-local reported-errors-are-errors: imp(len(errs) > 0, err != nil && result0 == nil)
+//@   ensures failed-or-schema: (err == nil) == (result0 != nil)
